@@ -3,7 +3,7 @@ from __future__ import annotations
 
 import json
 
-from . import drv_auto, drv_conn, drv_fcs, drv_hdlc, drv_obis, drv_p1, drv_p1dec, drv_proto, drv_readers
+from . import drv_auto, drv_conn, drv_cosem, drv_fcs, drv_hdlc, drv_obis, drv_p1, drv_p1dec, drv_proto, drv_readers
 
 CHECKS = {
     "C01": (drv_hdlc.run_c01, "model_checking"),
@@ -12,6 +12,10 @@ CHECKS = {
     "C04": (drv_p1.run_c04, "model_checking"),
     "C05": (drv_p1.run_c05, "model_checking"),
     "C06": (drv_hdlc.run_c06, "model_checking"),
+    "C07": (drv_cosem.run_c07, "model_checking"),
+    "C08": (drv_cosem.run_c08, "model_checking"),
+    "C09": (drv_cosem.run_c09, "model_checking"),
+    "C10": (drv_cosem.run_c10, "model_checking"),
     "C11": (drv_p1dec.run_c11, "model_checking"),
     "C12": (drv_auto.run_c12, "model_checking"),
     "C13": (drv_proto.run_c13, "model_checking"),
@@ -31,6 +35,10 @@ REPLAYERS = {
     "C04": drv_p1.replay_c04,
     "C05": drv_p1.replay_c05,
     "C06": drv_hdlc.replay_c06,
+    "C07": drv_cosem.replay_c07,
+    "C08": drv_cosem.replay_c08,
+    "C09": drv_cosem.replay_c09,
+    "C10": drv_cosem.replay_c10,
     "C11": drv_p1dec.replay_c11,
     "C12": drv_auto.replay_c12,
     "C13": drv_proto.replay_c13,
